@@ -5,8 +5,8 @@ import Passage.Util.Bytes
   Writer = `serde_json::ser::format_escaped_str_contents` (CompactFormatter): `"` and `\` get a backslash,
   0x08 0x09 0x0a 0x0c 0x0d their letter, every other byte below 0x20 `\u00XX` (lower-case hex), everything else
   — including bytes ≥ 0x80 — is copied.  Reader = `SliceRead::parse_str_bytes` + `parse_escape`, as far as
-  the writer's output needs it: short escapes incl. `\/`, `\uXXXX` below 0x80 (anything else `\u` is
-  reported as `unsupported`, not guessed), raw control bytes refused.
+  the writer's output needs it: short escapes incl. `\/`, `\uXXXX` (UTF-8 of the scalar value; surrogate pairs; lone surrogates refused), raw
+  control bytes refused.  UTF-8 validity of raw bytes is checked by the driver (Codec/Utf8.lean), not here.
   No imports beyond core: links into the `passage-model` executable.
 -/
 namespace Passage.Json
@@ -41,7 +41,6 @@ def quote (s : Bytes) : Bytes := 34 :: (escape s ++ [34])
 
 inductive Scan
   | bad                                  -- a syntax error
-  | unsupported                          -- `\u` escape at or above 0x80 (not modelled)
   | ok (s : Bytes) (rest : Bytes)        -- contents and what follows the closing quote
   deriving DecidableEq, Repr
 
@@ -60,7 +59,19 @@ def hex4 (a b c d : UInt8) : Option Nat :=
   | some p, some q, some r, some s => some (((p * 16 + q) * 16 + r) * 16 + s)
   | _, _, _, _ => none
 
-/-- reads string contents up to the closing quote (the opening quote already consumed) -/
+/-- UTF-8 of a scalar value -/
+def utf8enc (c : Nat) : Bytes :=
+  if c < 0x80 then [UInt8.ofNat c]
+  else if c < 0x800 then [UInt8.ofNat (0xC0 + c / 64), UInt8.ofNat (0x80 + c % 64)]
+  else if c < 0x10000 then [UInt8.ofNat (0xE0 + c / 4096), UInt8.ofNat (0x80 + c / 64 % 64), UInt8.ofNat (0x80 + c % 64)]
+  else [UInt8.ofNat (0xF0 + c / 262144), UInt8.ofNat (0x80 + c / 4096 % 64), UInt8.ofNat (0x80 + c / 64 % 64), UInt8.ofNat (0x80 + c % 64)]
+
+def Scan.pushAll (bs : Bytes) : Scan → Scan
+  | .ok s r => .ok (bs ++ s) r
+  | x => x
+
+/-- reads string contents up to the closing quote (the opening quote already consumed); a `\u` escape yields the
+    UTF-8 of its scalar value, a leading surrogate must be followed by `\u` and a trailing one, lone surrogates are refused -/
 def scan : Bytes → Scan
   | [] => .bad
   | b :: r =>
@@ -74,7 +85,22 @@ def scan : Bytes → Scan
           | h1 :: h2 :: h3 :: h4 :: r'' =>
             match hex4 h1 h2 h3 h4 with
             | none => .bad
-            | some v => if v < 128 then (scan r'').push (UInt8.ofNat v) else .unsupported
+            | some v =>
+              if v < 128 then (scan r'').push (UInt8.ofNat v)
+              else if 0xD800 ≤ v ∧ v ≤ 0xDBFF then
+                match r'' with
+                | x :: y :: g1 :: g2 :: g3 :: g4 :: r3 =>
+                  if x = 92 ∧ y = 117 then
+                    match hex4 g1 g2 g3 g4 with
+                    | none => .bad
+                    | some w =>
+                      if 0xDC00 ≤ w ∧ w ≤ 0xDFFF then
+                        (scan r3).pushAll (utf8enc (0x10000 + (v - 0xD800) * 0x400 + (w - 0xDC00)))
+                      else .bad
+                  else .bad
+                | _ => .bad
+              else if 0xDC00 ≤ v ∧ v ≤ 0xDFFF then .bad
+              else (scan r'').pushAll (utf8enc v)
           | _ => .bad
         else
           match unesc1 e with
